@@ -11,15 +11,28 @@ import sys
 import time
 
 VERIF = os.path.dirname(os.path.dirname(os.path.abspath(__file__)))
-COQ = os.path.join(VERIF, 'coq')
-BUILD = os.path.join(VERIF, 'build')
 REPO = os.environ.get('VERIF_REPO', '/repo')
+# VERIF_SCRATCH=<dir>: developer option for testing the checks against a modified copy of the repository
+# (VERIF_REPO) without disturbing the main build: coq/ is mirrored into <dir>/coq, build output and
+# evidence go under <dir>.  The registered commands never set it.
+SCRATCH = os.environ.get('VERIF_SCRATCH')
+if SCRATCH:
+    os.makedirs(SCRATCH, exist_ok=True)
+    subprocess.run(['rsync', '-a', '--delete', '--exclude', 'Makefile*', '--exclude', '.Makefile.d',
+                    os.path.join(VERIF, 'coq') + '/', os.path.join(SCRATCH, 'coq') + '/'], check=True)
+    COQ = os.path.join(SCRATCH, 'coq')
+    BUILD = os.path.join(SCRATCH, 'build')
+    EVID = os.path.join(SCRATCH, 'evidence')
+else:
+    COQ = os.path.join(VERIF, 'coq')
+    BUILD = os.path.join(VERIF, 'build')
+    EVID = os.path.join(VERIF, 'evidence')
 PY = '/venv/bin/python'
 MAGIC = 777000777
 
 os.makedirs(os.path.join(BUILD, 'corr'), exist_ok=True)
 os.makedirs(os.path.join(BUILD, 'replays'), exist_ok=True)
-os.makedirs(os.path.join(VERIF, 'evidence'), exist_ok=True)
+os.makedirs(EVID, exist_ok=True)
 
 
 class Lock:
@@ -296,7 +309,7 @@ class Report:
               'violations': len(self.violations)}
         if self.known_hits:
             ev['coverage']['known_findings_hit'] = self.known_hits
-        with open(os.path.join(VERIF, 'evidence', self.pid + '.json'), 'w') as f:
+        with open(os.path.join(EVID, self.pid + '.json'), 'w') as f:
             json.dump(ev, f, indent=1, default=str)
         for p, noinp in self.violations:
             print('VIOLATION property=%s replay=%s%s' % (self.pid, p, ' no-failing-input-found' if noinp else ''))
